@@ -13,7 +13,7 @@
 use std::{collections::HashMap, rc::Rc, sync::Mutex};
 
 use actix_web::{
-    dev::{Service, ServiceResponse},
+    dev::{Service, ServiceRequest, ServiceResponse, Transform},
     guard::{self, Guard},
     http::{Method, StatusCode},
     test, web, App, HttpRequest, HttpResponse, Resource, Scope,
@@ -26,7 +26,7 @@ const RULE: &str = "case = one route table (scopes nested up to 3 levels, resour
 (static, {name}, {name:\\d+}, tail), App::route sugar, method/header/host/All/Any/Not guards on scopes, resources and \
 routes, per-node app_data markers, default services) and 1..24 requests (methods, Host / x-a headers, paths over an \
 alphabet with %2F %25 %2B %61, empty segments, trailing slashes, query strings); tables: every table of <= 2 top-level \
-nodes over a menu of 6 resource and 4 scope patterns with <= 2 children per scope; every table of <= 2 overlapping top-level nodes over 57 templates combining guards, data, defaults and route sets (x GET/POST x 5 paths); plus seeded random tables to depth 3 \
+nodes over a menu of 6 resource and 4 scope patterns with <= 2 children per scope; every table of <= 2 overlapping top-level nodes over 57 templates combining guards, data, defaults and route sets (x GET/POST x 5 paths); a third exhaustive family with the same marker type registered at up to three levels and read through ServiceRequest::app_data by guards (D~n) and reporting middlewares (w=), and with service factories that are Pending on their first polls (z=, !k) in front of later-registered overlapping services at app, scope and route level; plus seeded random tables to depth 3 \
 with requests derived from a route of the table (and mutations of them) and random requests; a request is non-trivial \
 if some service of the table was committed to (a handler, a registered default, a 405, or a non-empty resource path); \
 distinct = distinct (case, output) hashes";
@@ -43,18 +43,31 @@ pub enum G {
     All(Vec<G>),
     Any(Vec<G>),
     Not(Box<G>),
+    /// `fn_guard(|ctx| ctx.app_data::<Marker>() == Some(n))`: reads app data through `GuardContext`
+    Data(u32),
 }
 
 #[derive(Clone, Debug)]
 pub struct RouteT {
     pub guards: Vec<G>,
     pub handler: u32,
+    /// `.wrap(slow k)`: the route's service factory is Pending k times before it is ready
+    pub slow: Option<usize>,
+}
+
+/// middleware attributes of a scope / resource
+#[derive(Clone, Copy, Debug, Default)]
+pub struct MwT {
+    /// `w=id`: reports the marker it sees through `ServiceRequest::app_data`
+    pub report: Option<u32>,
+    /// `z=k`: the factory future of the wrapped service is Pending k times
+    pub slow: Option<usize>,
 }
 
 #[derive(Clone, Debug)]
 pub enum NodeT {
-    Scope { pat: String, guards: Vec<G>, data: Option<u32>, children: Vec<NodeT>, dflt: Option<u32> },
-    Resource { pats: Vec<String>, guards: Vec<G>, data: Option<u32>, routes: Vec<RouteT>, dflt: Option<u32> },
+    Scope { pat: String, guards: Vec<G>, data: Option<u32>, children: Vec<NodeT>, dflt: Option<u32>, mw: MwT },
+    Resource { pats: Vec<String>, guards: Vec<G>, data: Option<u32>, routes: Vec<RouteT>, dflt: Option<u32>, mw: MwT },
     /// `App::route(path, route)` / `Scope::route(path, route)`
     RouteSugar { pat: String, route: RouteT },
 }
@@ -97,6 +110,10 @@ fn parse_guard(s: &str) -> Option<(G, &str)> {
         let (m, r) = atom(r);
         return Some((G::Method(m.to_owned()), r));
     }
+    if let Some(r) = s.strip_prefix("D~") {
+        let (n, r) = atom(r);
+        return Some((G::Data(n.parse().ok()?), r));
+    }
     if let Some(r) = s.strip_prefix("O~") {
         let (h, r) = atom(r);
         return Some((G::Host(h.to_owned()), r));
@@ -122,9 +139,18 @@ fn parse_guards(mut s: &str) -> Option<(Vec<G>, &str)> {
     }
 }
 
+/// `7` or `7!2` (handler id, optional slow-factory count)
+fn handler_slow(s: &str) -> Option<(u32, Option<usize>)> {
+    match s.split_once('!') {
+        Some((h, k)) => Some((h.parse().ok()?, Some(k.parse().ok()?))),
+        None => Some((s.parse().ok()?, None)),
+    }
+}
+
 fn parse_route(t: &str) -> Option<RouteT> {
     if let Some(h) = t.strip_prefix("*>") {
-        return Some(RouteT { guards: vec![], handler: h.parse().ok()? });
+        let (h, slow) = handler_slow(h)?;
+        return Some(RouteT { guards: vec![], handler: h, slow });
     }
     let mut guards = Vec::new();
     let mut s = t;
@@ -134,7 +160,8 @@ fn parse_route(t: &str) -> Option<RouteT> {
         if let Some(r) = r.strip_prefix('&') {
             s = r;
         } else {
-            return Some(RouteT { guards, handler: r.strip_prefix('>')?.parse().ok()? });
+            let (h, slow) = handler_slow(r.strip_prefix('>')?)?;
+            return Some(RouteT { guards, handler: h, slow });
         }
     }
 }
@@ -144,6 +171,7 @@ struct Attrs {
     guards: Vec<G>,
     data: Option<u32>,
     dflt: Option<u32>,
+    mw: MwT,
 }
 
 fn parse_attrs<'a>(toks: &[&'a str], i: &mut usize) -> Option<Attrs> {
@@ -158,6 +186,10 @@ fn parse_attrs<'a>(toks: &[&'a str], i: &mut usize) -> Option<Attrs> {
             a.guards.push(g);
         } else if let Some(n) = t.strip_prefix("df=") {
             a.dflt = Some(n.parse().ok()?);
+        } else if let Some(n) = t.strip_prefix("w=") {
+            a.mw.report = Some(n.parse().ok()?);
+        } else if let Some(n) = t.strip_prefix("z=") {
+            a.mw.slow = Some(n.parse().ok()?);
         } else if let Some(n) = t.strip_prefix("d=") {
             a.data = Some(n.parse().ok()?);
         } else {
@@ -182,7 +214,7 @@ fn parse_nodes(toks: &[&str], i: &mut usize) -> Option<Vec<NodeT>> {
             }
             *i += 1;
             let children = parse_nodes(toks, i)?;
-            out.push(NodeT::Scope { pat: p.to_owned(), guards: a.guards, data: a.data, children, dflt: a.dflt });
+            out.push(NodeT::Scope { pat: p.to_owned(), guards: a.guards, data: a.data, children, dflt: a.dflt, mw: a.mw });
         } else if let Some(p) = t.strip_prefix("r:") {
             let a = parse_attrs(toks, i)?;
             if *toks.get(*i)? != "(" {
@@ -204,6 +236,7 @@ fn parse_nodes(toks: &[&str], i: &mut usize) -> Option<Vec<NodeT>> {
                 data: a.data,
                 routes,
                 dflt: a.dflt,
+                mw: a.mw,
             });
         } else if let Some(p) = t.strip_prefix("t:") {
             let r = parse_route(toks.get(*i)?)?;
@@ -221,7 +254,7 @@ fn parse_app(toks: &[&str]) -> Option<AppT> {
     }
     let mut i = 1;
     let a = parse_attrs(toks, &mut i)?;
-    if !a.guards.is_empty() || *toks.get(i)? != "{" {
+    if !a.guards.is_empty() || a.mw.report.is_some() || a.mw.slow.is_some() || *toks.get(i)? != "{" {
         return None;
     }
     i += 1;
@@ -296,6 +329,104 @@ fn mk_guard(g: &G) -> Rc<dyn Guard> {
             Rc::new(a)
         }
         G::Not(g) => Rc::new(guard::Not(mk_guard(g))),
+        G::Data(n) => {
+            let n = *n;
+            // `GuardContext::app_data` is `ServiceRequest::app_data`
+            Rc::new(guard::fn_guard(move |ctx| ctx.app_data::<Marker>().map(|m| m.0) == Some(n)))
+        }
+    }
+}
+
+/// a future that is Pending `0` times more (self-waking)
+struct YieldN(usize);
+
+impl std::future::Future for YieldN {
+    type Output = ();
+    fn poll(mut self: std::pin::Pin<&mut Self>, cx: &mut std::task::Context<'_>) -> std::task::Poll<()> {
+        if self.0 == 0 {
+            std::task::Poll::Ready(())
+        } else {
+            self.0 -= 1;
+            cx.waker().wake_by_ref();
+            std::task::Poll::Pending
+        }
+    }
+}
+
+/// Test middleware. Its *factory* future is Pending `slow` times (so that the order in which the
+/// service factories of siblings complete differs from their registration order); the service
+/// optionally reports, in an `x-mw` response header, the marker it sees through
+/// `ServiceRequest::app_data`.
+#[derive(Clone, Copy)]
+struct Mw {
+    slow: usize,
+    report: Option<u32>,
+}
+
+impl From<MwT> for Mw {
+    fn from(m: MwT) -> Self {
+        Mw { slow: m.slow.unwrap_or(0), report: m.report }
+    }
+}
+
+impl MwT {
+    fn any(&self) -> bool {
+        self.report.is_some() || self.slow.is_some()
+    }
+}
+
+struct MwService<S> {
+    service: S,
+    report: Option<u32>,
+}
+
+impl<S, B> Transform<S, ServiceRequest> for Mw
+where
+    S: Service<ServiceRequest, Response = ServiceResponse<B>, Error = actix_web::Error> + 'static,
+    B: 'static,
+{
+    type Response = ServiceResponse<B>;
+    type Error = actix_web::Error;
+    type Transform = MwService<S>;
+    type InitError = ();
+    type Future = std::pin::Pin<Box<dyn std::future::Future<Output = Result<Self::Transform, ()>>>>;
+
+    fn new_transform(&self, service: S) -> Self::Future {
+        let Mw { slow, report } = *self;
+        Box::pin(async move {
+            YieldN(slow).await;
+            Ok(MwService { service, report })
+        })
+    }
+}
+
+impl<S, B> Service<ServiceRequest> for MwService<S>
+where
+    S: Service<ServiceRequest, Response = ServiceResponse<B>, Error = actix_web::Error> + 'static,
+    B: 'static,
+{
+    type Response = ServiceResponse<B>;
+    type Error = actix_web::Error;
+    type Future = std::pin::Pin<Box<dyn std::future::Future<Output = Result<Self::Response, Self::Error>>>>;
+
+    actix_web::dev::forward_ready!(service);
+
+    fn call(&self, req: ServiceRequest) -> Self::Future {
+        let seen = self.report.map(|id| {
+            let m = req.app_data::<Marker>().map(|m| m.0.to_string()).unwrap_or_else(|| "-".into());
+            format!("{id}:{m}")
+        });
+        let fut = self.service.call(req);
+        Box::pin(async move {
+            let mut res = fut.await?;
+            if let Some(seen) = seen {
+                res.headers_mut().append(
+                    actix_web::http::header::HeaderName::from_static("x-mw"),
+                    actix_web::http::header::HeaderValue::from_str(&seen).unwrap(),
+                );
+            }
+            Ok(res)
+        })
     }
 }
 
@@ -313,10 +444,14 @@ fn mk_route(r: &RouteT) -> actix_web::Route {
         route = route.guard(mk_guard(g));
     }
     let id = r.handler;
-    route.to(move |req: HttpRequest| {
+    let route = route.to(move |req: HttpRequest| {
         let body = report(&format!("h{id}"), &req, true);
         async move { HttpResponse::Ok().body(body) }
-    })
+    });
+    match r.slow {
+        Some(k) => route.wrap(Mw { slow: k, report: None }),
+        None => route,
+    }
 }
 
 fn mk_default(id: u32) -> actix_web::Route {
@@ -353,8 +488,14 @@ fn mk_scope(pat: &str, guards: &[G], data: Option<u32>, children: &[NodeT], dflt
     }
     for c in children {
         s = match c {
-            NodeT::Scope { pat, guards, data, children, dflt } => s.service(mk_scope(pat, guards, *data, children, *dflt)),
-            NodeT::Resource { pats, guards, data, routes, dflt } => s.service(mk_resource(pats, guards, *data, routes, *dflt)),
+            NodeT::Scope { pat, guards, data, children, dflt, mw } if mw.any() => {
+                s.service(mk_scope(pat, guards, *data, children, *dflt).wrap(Mw::from(*mw)))
+            }
+            NodeT::Scope { pat, guards, data, children, dflt, .. } => s.service(mk_scope(pat, guards, *data, children, *dflt)),
+            NodeT::Resource { pats, guards, data, routes, dflt, mw } if mw.any() => {
+                s.service(mk_resource(pats, guards, *data, routes, *dflt).wrap(Mw::from(*mw)))
+            }
+            NodeT::Resource { pats, guards, data, routes, dflt, .. } => s.service(mk_resource(pats, guards, *data, routes, *dflt)),
             NodeT::RouteSugar { pat, route } => s.route(pat, mk_route(route)),
         };
     }
@@ -371,8 +512,14 @@ async fn run_impl(app: &AppT, reqs: &[ReqT]) -> Vec<String> {
     }
     for c in &app.children {
         a = match c {
-            NodeT::Scope { pat, guards, data, children, dflt } => a.service(mk_scope(pat, guards, *data, children, *dflt)),
-            NodeT::Resource { pats, guards, data, routes, dflt } => a.service(mk_resource(pats, guards, *data, routes, *dflt)),
+            NodeT::Scope { pat, guards, data, children, dflt, mw } if mw.any() => {
+                a.service(mk_scope(pat, guards, *data, children, *dflt).wrap(Mw::from(*mw)))
+            }
+            NodeT::Scope { pat, guards, data, children, dflt, .. } => a.service(mk_scope(pat, guards, *data, children, *dflt)),
+            NodeT::Resource { pats, guards, data, routes, dflt, mw } if mw.any() => {
+                a.service(mk_resource(pats, guards, *data, routes, *dflt).wrap(Mw::from(*mw)))
+            }
+            NodeT::Resource { pats, guards, data, routes, dflt, .. } => a.service(mk_resource(pats, guards, *data, routes, *dflt)),
             NodeT::RouteSugar { pat, route } => a.route(pat, mk_route(route)),
         };
     }
@@ -403,6 +550,10 @@ async fn run_impl(app: &AppT, reqs: &[ReqT]) -> Vec<String> {
             }
         };
         let status = resp.status();
+        // reporting middlewares append on the way out (innermost first): print outermost first
+        let mut mw: Vec<String> =
+            resp.headers().get_all("x-mw").map(|v| v.to_str().unwrap_or("?").to_owned()).collect();
+        mw.reverse();
         let out = if status == StatusCode::OK {
             let body = test::read_body(resp).await;
             String::from_utf8_lossy(&body).into_owned()
@@ -410,7 +561,7 @@ async fn run_impl(app: &AppT, reqs: &[ReqT]) -> Vec<String> {
             // built-in default services: read the request state they were called with
             report(&status.as_u16().to_string(), resp.request(), false)
         };
-        outs.push(out);
+        outs.push(format!("{out} mw=[{}]", mw.join(",")));
     }
     outs
 }
@@ -428,6 +579,8 @@ mod reference {
         pub params: Vec<(String, String)>,
         pub rest: String,
         pub data: Option<u32>,
+        /// what the reporting middlewares on the way saw, outermost first
+        pub mw: Vec<String>,
     }
 
     /// percent-decode everything except the escapes of `%`, `/`, `+` (these stay as written)
@@ -551,14 +704,16 @@ mod reference {
         req.headers.iter().find(|(k, _)| k.eq_ignore_ascii_case(name)).map(|(_, v)| v.as_str())
     }
 
-    pub fn holds(g: &G, req: &ReqT) -> bool {
+    /// `data`: the innermost registration of the marker at the place the guard stands
+    pub fn holds(g: &G, req: &ReqT, data: Option<u32>) -> bool {
         match g {
+            G::Data(n) => data == Some(*n),
             G::Method(m) => req.method == *m,
             G::Header(k, v) => header(req, k) == Some(v.as_str()),
             G::Host(h) => header(req, "host").map(|v| v.split(':').next().unwrap_or("")) == Some(h.as_str()),
-            G::All(gs) => gs.iter().all(|g| holds(g, req)),
-            G::Any(gs) => gs.iter().any(|g| holds(g, req)),
-            G::Not(g) => !holds(g, req),
+            G::All(gs) => gs.iter().all(|g| holds(g, req, data)),
+            G::Any(gs) => gs.iter().any(|g| holds(g, req, data)),
+            G::Not(g) => !holds(g, req, data),
         }
     }
 
@@ -575,46 +730,59 @@ mod reference {
         params: &[(String, String)],
         data: Option<u32>,
         nearest_default: &str,
+        mw: &[String],
     ) -> Option<Outcome> {
+        let seen = |m: &super::MwT, data: Option<u32>, mw: &[String]| {
+            let mut mw = mw.to_vec();
+            if let Some(id) = m.report {
+                mw.push(format!("{id}:{}", data.map(|d| d.to_string()).unwrap_or_else(|| "-".into())));
+            }
+            mw
+        };
         for n in nodes {
             let rest = &cx.path[at..];
             match n {
-                NodeT::Scope { pat, guards, data: d, children, dflt } => {
+                NodeT::Scope { pat, guards, data: d, children, dflt, mw: m } => {
                     let Some((len, ps)) = match_pattern(&with_slash(pat), false, rest) else { continue };
-                    if !guards.iter().all(|g| holds(g, cx.req)) {
+                    // a guard of the scope stands outside the scope: it sees the enclosing data
+                    if !guards.iter().all(|g| holds(g, cx.req, data)) {
                         continue;
                     }
                     // committed: everything below is decided inside this scope
                     let mut params = params.to_vec();
                     params.extend(ps);
                     let data = d.or(data);
+                    let mw = seen(m, data, mw);
                     let own = dflt.map(|d| format!("df{d}"));
                     let nearest = own.as_deref().unwrap_or(nearest_default);
-                    return Some(search(cx, children, at + len, &params, data, nearest).unwrap_or_else(|| Outcome {
+                    return Some(search(cx, children, at + len, &params, data, nearest, &mw).unwrap_or_else(|| Outcome {
                         who: nearest.to_owned(),
                         params,
                         rest: cx.path[at + len..].to_owned(),
                         data,
+                        mw,
                     }));
                 }
-                NodeT::Resource { pats, guards, data: d, routes, dflt } => {
+                NodeT::Resource { pats, guards, data: d, routes, dflt, mw: m } => {
                     let Some((len, ps)) = pats.iter().find_map(|p| match_pattern(&with_slash(p), true, rest)) else {
                         continue;
                     };
-                    if !guards.iter().all(|g| holds(g, cx.req)) {
+                    if !guards.iter().all(|g| holds(g, cx.req, data)) {
                         continue;
                     }
                     let mut params = params.to_vec();
                     params.extend(ps);
-                    let who = match routes.iter().find(|r| r.guards.iter().all(|g| holds(g, cx.req))) {
+                    // route guards stand inside the resource: they see the resource's own data
+                    let data = d.or(data);
+                    let who = match routes.iter().find(|r| r.guards.iter().all(|g| holds(g, cx.req, data))) {
                         Some(r) => format!("h{}", r.handler),
                         None => dflt.map(|d| format!("df{d}")).unwrap_or_else(|| "405".to_owned()),
                     };
-                    return Some(Outcome { who, params, rest: cx.path[at + len..].to_owned(), data: d.or(data) });
+                    return Some(Outcome { who, params, rest: cx.path[at + len..].to_owned(), data, mw: seen(m, data, mw) });
                 }
                 NodeT::RouteSugar { pat, route } => {
                     let Some((len, ps)) = match_pattern(&with_slash(pat), true, rest) else { continue };
-                    if !route.guards.iter().all(|g| holds(g, cx.req)) {
+                    if !route.guards.iter().all(|g| holds(g, cx.req, data)) {
                         continue;
                     }
                     let mut params = params.to_vec();
@@ -624,6 +792,7 @@ mod reference {
                         params,
                         rest: cx.path[at + len..].to_owned(),
                         data,
+                        mw: mw.to_vec(),
                     });
                 }
             }
@@ -636,11 +805,12 @@ mod reference {
         let path = decode(raw);
         let cx = Ctx { req, path: &path };
         let app_default = app.dflt.map(|d| format!("df{d}")).unwrap_or_else(|| "404".to_owned());
-        search(&cx, &app.children, 0, &[], app.data, &app_default).unwrap_or_else(|| Outcome {
+        search(&cx, &app.children, 0, &[], app.data, &app_default, &[]).unwrap_or_else(|| Outcome {
             who: app_default.clone(),
             params: vec![],
             rest: path.clone(),
             data: app.data,
+            mw: vec![],
         })
     }
 }
@@ -672,6 +842,15 @@ fn guards_to(nodes: &[NodeT], h: u32) -> Option<Vec<G>> {
     None
 }
 
+fn reads_data(g: &G) -> bool {
+    match g {
+        G::Data(_) => true,
+        G::All(gs) | G::Any(gs) => gs.iter().any(reads_data),
+        G::Not(g) => reads_data(g),
+        _ => false,
+    }
+}
+
 /// parse an implementation output line back into its fields
 fn parse_out(o: &str) -> Option<reference::Outcome> {
     let mut it = o.split(' ');
@@ -685,7 +864,10 @@ fn parse_out(o: &str) -> Option<reference::Outcome> {
     let rest = it.next()?.strip_prefix("un=")?.to_owned();
     let d = it.next()?.strip_prefix("d=")?;
     let data = if d == "-" { None } else { Some(d.parse().ok()?) };
-    Some(reference::Outcome { who, params, rest, data })
+    let _mp = it.next()?.strip_prefix("mp=")?;
+    let mw = it.next()?.strip_prefix("mw=[")?.strip_suffix(']')?;
+    let mw = mw.split(',').filter(|s| !s.is_empty()).map(str::to_owned).collect();
+    Some(reference::Outcome { who, params, rest, data, mw })
 }
 
 fn is_default_like(who: &str) -> bool {
@@ -724,12 +906,20 @@ fn run(line: &str) -> CaseResult {
             fails.push(("params-exact".into(), format!("{what}: match_info {:?}, route patterns give {:?}", got.params, want.params)));
         } else if got.data != want.data {
             fails.push(("data-innermost".into(), format!("{what}: app_data {:?}, innermost registration is {:?}", got.data, want.data)));
+        } else if got.mw != want.mw {
+            fails.push((
+                "data-innermost-service-request".into(),
+                format!("{what}: middlewares saw {:?} through ServiceRequest::app_data, innermost registrations are {:?}", got.mw, want.mw),
+            ));
         } else if got.rest != want.rest {
             fails.push(("unprocessed".into(), format!("{what}: unprocessed {:?} want {:?}", got.rest, want.rest)));
         }
         // generator ground truth: the path was built from the route to handler `h` with these values;
         // it must be served by that handler with exactly these values, or by a service registered earlier
-        if let Some((h, ps)) = r.exp.as_ref().filter(|(h, _)| guards_to(&app.children, *h).is_some_and(|gs| gs.iter().all(|g| reference::holds(g, r)))) {
+        // (guards that read app data depend on where they stand: leave those to the reference router)
+        if let Some((h, ps)) = r.exp.as_ref().filter(|(h, _)| {
+            guards_to(&app.children, *h).is_some_and(|gs| gs.iter().all(|g| !reads_data(g) && reference::holds(g, r, None)))
+        }) {
             tags.push("ground-truth-checked".into());
             if got.who == format!("h{h}") {
                 if got.params != *ps {
@@ -764,6 +954,9 @@ fn run(line: &str) -> CaseResult {
         }
         if got.data.is_some() {
             tags.push("data".into());
+        }
+        if !got.mw.is_empty() {
+            tags.push("mw-report".into());
         }
         if r.target.contains('%') {
             tags.push("pct-path".into());
@@ -910,6 +1103,42 @@ fn exhaustive_attrs(cases: &mut Vec<String>) {
     }
 }
 
+/// third exhaustive family: (a) app data read through `ServiceRequest::app_data` — by guards
+/// (`D~n`) standing at every level and by reporting middlewares (`w=`) — with the same marker
+/// type registered at up to three nesting levels; (b) service factories that are not ready on
+/// their first poll (`z=`, `!k`) in front of later-registered overlapping services, at the app
+/// level (`AppRoutingFactory`), inside a scope (`ScopeFactory`) and among the routes of a resource
+/// (`ResourceFactory`): the routing table must follow registration order, not completion order
+fn exhaustive_srvreq_and_startup(cases: &mut Vec<String>) {
+    let reqs = " ;; GET /a/x ;; POST /a/x ;; GET /a/y ;; GET /a";
+    let mut firsts: Vec<String> = Vec::new();
+    for z in ["", " z=1", " z=3"] {
+        for d in ["", " d=2"] {
+            for w in ["", " w=5"] {
+                for g in ["", " g=D~1", " g=D~2"] {
+                    firsts.push(format!("s:/a{z}{d}{w} {{ r:/x{g} ( *>10 ) r:/x d=3 w=6 ( D~3>11 D~2>12 *>13 ) }}"));
+                }
+                for inner in ["s:/x z=1 { r: ( *>14 ) } r:/x ( *>15 )", "r:/x ( M~POST>16!2 D~2>17!1 *>18 ) r:/y z=2 ( *>19 )"] {
+                    firsts.push(format!("s:/a{z}{d}{w} {{ {inner} }}"));
+                }
+            }
+        }
+        for g in ["", " g=D~1", " g=N(D~1)"] {
+            firsts.push(format!("r:/a/x{z}{g} d=4 w=7 ( D~4>20 *>21 )"));
+            firsts.push(format!("r:/a/x{z}{g} ( M~POST>22!2 *>23 )"));
+        }
+        firsts.push(format!("t:/a/x D~1>24{}", if z.is_empty() { "".to_owned() } else { z.replace(" z=", "!") }));
+    }
+    let seconds = ["", "r:/a/x ( *>30 )", "s:/a { r:/x ( *>31 ) r:/y ( *>32 ) }", "t:/a/x *>33", "s:/a z=1 w=8 { r:/x ( *>34 ) }", "r:/a/{id} d=9 ( D~9>35 )"];
+    for head in ["app", "app d=1", "app d=1 df=40"] {
+        for a in &firsts {
+            for b in seconds {
+                cases.push(format!("{head} {{ {a} {b} }}{reqs}").split_whitespace().collect::<Vec<_>>().join(" "));
+            }
+        }
+    }
+}
+
 const R_SCOPE_PATS: &[&str] = &["/a", "a", "/a/", "", "/", "/{p}", "/a/{p}", "/{p:\\d+}", "/a/b", "/b"];
 const R_LEAF_PATS: &[&str] = &[
     "/x", "x", "", "/", "/{id}", "/{id}/x", "/x/{id:\\d+}", "/{t}*", "/f/{t:.*}", "/a", "/a/x", "/x/", "/x|/y/{id}", "/{id}|/x",
@@ -931,26 +1160,77 @@ struct Leaf {
     truth: bool,
 }
 
-fn gen_guard_attr(rng: &mut Rng, out: &mut String, p_num: usize) {
+/// a guard that reads app data: mostly for a marker that is registered somewhere above
+fn data_guard(rng: &mut Rng, visible: &[u32]) -> String {
+    let n = if !visible.is_empty() && rng.chance(4, 5) { *rng.pick(visible) } else { rng.range(1, 9) as u32 };
+    if rng.chance(1, 5) {
+        format!("N(D~{n})")
+    } else {
+        format!("D~{n}")
+    }
+}
+
+fn gen_guard_attr(rng: &mut Rng, out: &mut String, p_num: usize, visible: &[u32]) {
     if rng.chance(p_num, 10) {
         out.push_str(&format!(" g={}", rng.pick(R_GUARDS)));
         if rng.chance(1, 6) {
             out.push_str(&format!(" g={}", rng.pick(R_GUARDS)));
         }
     }
+    if rng.chance(1, 8) {
+        out.push_str(&format!(" g={}", data_guard(rng, visible)));
+    }
 }
 
-fn gen_nodes(rng: &mut Rng, ids: &mut Ids, depth: usize, prefix: &[String], out: &mut String, leaves: &mut Vec<Leaf>) {
+/// middleware attributes: reporting middleware, slow service factory
+fn gen_mw_attr(rng: &mut Rng, ids: &mut Ids, out: &mut String) {
+    if rng.chance(1, 5) {
+        out.push_str(&format!(" w={}", ids.fresh()));
+    }
+    if rng.chance(1, 6) {
+        out.push_str(&format!(" z={}", rng.range(1, 3)));
+    }
+}
+
+fn route_guard(rng: &mut Rng, visible: &[u32]) -> String {
+    if rng.chance(1, 8) {
+        data_guard(rng, visible)
+    } else {
+        (*rng.pick(R_ROUTE_GUARDS)).to_owned()
+    }
+}
+
+fn slow_suffix(rng: &mut Rng) -> String {
+    if rng.chance(1, 10) {
+        format!("!{}", rng.range(1, 3))
+    } else {
+        String::new()
+    }
+}
+
+fn gen_nodes(
+    rng: &mut Rng,
+    ids: &mut Ids,
+    depth: usize,
+    prefix: &[String],
+    out: &mut String,
+    leaves: &mut Vec<Leaf>,
+    visible: &[u32],
+) {
     let n = if depth == 0 { rng.range(1, 4) } else { rng.range(0, 3) };
     for _ in 0..n {
         let kind = rng.below(10);
         if kind < 3 && depth < 2 {
             let p = *rng.pick(R_SCOPE_PATS);
             out.push_str(&format!(" s:{p}"));
-            gen_guard_attr(rng, out, 2);
+            gen_guard_attr(rng, out, 2, visible);
+            let mut inner = visible.to_vec();
             if rng.chance(1, 3) {
-                out.push_str(&format!(" d={}", ids.fresh()));
+                let d = ids.fresh();
+                inner.push(d);
+                out.push_str(&format!(" d={d}"));
             }
+            gen_mw_attr(rng, ids, out);
             let df = rng.chance(1, 3).then(|| ids.fresh());
             if let Some(d) = df {
                 out.push_str(&format!(" df={d}"));
@@ -958,24 +1238,28 @@ fn gen_nodes(rng: &mut Rng, ids: &mut Ids, depth: usize, prefix: &[String], out:
             out.push_str(" {");
             let mut pre = prefix.to_vec();
             pre.push(with_slash(p));
-            gen_nodes(rng, ids, depth + 1, &pre, out, leaves);
+            gen_nodes(rng, ids, depth + 1, &pre, out, leaves, &inner);
             out.push_str(" }");
         } else if kind < 4 {
             let p = *rng.pick(R_LEAF_PATS);
             let p = p.split('|').next().unwrap();
             let h = ids.fresh();
-            let g = *rng.pick(R_ROUTE_GUARDS);
-            out.push_str(&format!(" t:{p} {g}>{h}"));
+            let g = route_guard(rng, visible);
+            out.push_str(&format!(" t:{p} {g}>{h}{}", slow_suffix(rng)));
             let mut pre = prefix.to_vec();
             pre.push(with_slash(p));
             leaves.push(Leaf { pats: pre, handler: h, truth: true });
         } else {
             let p = *rng.pick(R_LEAF_PATS);
             out.push_str(&format!(" r:{p}"));
-            gen_guard_attr(rng, out, 2);
+            gen_guard_attr(rng, out, 2, visible);
+            let mut inner = visible.to_vec();
             if rng.chance(1, 4) {
-                out.push_str(&format!(" d={}", ids.fresh()));
+                let d = ids.fresh();
+                inner.push(d);
+                out.push_str(&format!(" d={d}"));
             }
+            gen_mw_attr(rng, ids, out);
             if rng.chance(1, 5) {
                 out.push_str(&format!(" df={}", ids.fresh()));
             }
@@ -983,7 +1267,7 @@ fn gen_nodes(rng: &mut Rng, ids: &mut Ids, depth: usize, prefix: &[String], out:
             let nr = if rng.chance(1, 12) { 0 } else { rng.range(1, 3) };
             for _ in 0..nr {
                 let h = ids.fresh();
-                out.push_str(&format!(" {}>{h}", rng.pick(R_ROUTE_GUARDS)));
+                out.push_str(&format!(" {}>{h}{}", route_guard(rng, &inner), slow_suffix(rng)));
                 for (k, alt) in p.split('|').enumerate() {
                     let mut pre = prefix.to_vec();
                     pre.push(with_slash(alt));
@@ -1126,13 +1410,17 @@ fn gen(ctx: &Ctx) -> Vec<String> {
     if ctx.tier != Tier::Burst {
         exhaustive_small(&mut cases);
         exhaustive_attrs(&mut cases);
+        exhaustive_srvreq_and_startup(&mut cases);
     }
     let mut rng = Rng::new(ctx.seed);
     for _ in 0..ctx.budget(6000) {
         let mut ids = Ids { next: 0 };
         let mut s = String::from("app");
+        let mut visible = Vec::new();
         if rng.chance(1, 3) {
-            s.push_str(&format!(" d={}", ids.fresh()));
+            let d = ids.fresh();
+            visible.push(d);
+            s.push_str(&format!(" d={d}"));
         }
         let df = rng.chance(1, 2).then(|| ids.fresh());
         if let Some(d) = df {
@@ -1140,7 +1428,7 @@ fn gen(ctx: &Ctx) -> Vec<String> {
         }
         s.push_str(" {");
         let mut leaves = Vec::new();
-        gen_nodes(&mut rng, &mut ids, 0, &[], &mut s, &mut leaves);
+        gen_nodes(&mut rng, &mut ids, 0, &[], &mut s, &mut leaves, &visible);
         s.push_str(" }");
         let nreq = rng.range(1, 12);
         for _ in 0..nreq {
